@@ -740,3 +740,68 @@ func (s *Session) thoroughBitPrecise(prop string, keys []string, lemmas []string
 	}
 	return out
 }
+
+// conversionRoundTripLemmas (C01): for element-type pairs (S, D), a value of S that is
+// representable in D converts to D and back unchanged under the modelled Go conversion
+// semantics. Together with Write/Read's "plain-conversion" clause this is the value
+// clause of C01 ("samples are read back unchanged for values representable in both").
+func (s *Session) conversionRoundTripLemmas() []*Obligation {
+	var out []*Obligation
+	u := &Unit{prog: s.prog, ctx: NewCtx(), mode: "precise"}
+	for _, ks := range basicNumeric {
+		for _, kd := range basicNumeric {
+			S, D := types.Type(types.Typ[ks]), types.Type(types.Typ[kd])
+			if types.Identical(S, D) {
+				continue
+			}
+			ctx := NewCtx()
+			wS, wD := u.widthOf(S), u.widthOf(D)
+			var v *Term
+			var repr *Term
+			switch {
+			case isIntegerT(S) && isIntegerT(D):
+				v = ctx.Const("v", SBV(wS))
+				// the mathematical value of v lies in D's range (compared in 66 bits)
+				W := 66
+				ext := func(t types.Type, x *Term, w int) *Term {
+					if isUnsignedT(t) {
+						return mk(fmt.Sprintf("(_ zero_extend %d)", W-w), SBV(W), x)
+					}
+					return mk(fmt.Sprintf("(_ sign_extend %d)", W-w), SBV(W), x)
+				}
+				val := ext(S, v, wS)
+				var lo, hi *big.Int
+				if isUnsignedT(D) {
+					lo, hi = big.NewInt(0), new(big.Int).Sub(pow2(wD), big.NewInt(1))
+				} else {
+					lo, hi = new(big.Int).Neg(pow2(wD-1)), new(big.Int).Sub(pow2(wD-1), big.NewInt(1))
+				}
+				repr = And(mk("bvsle", SBool, BVLit(lo, W), val), mk("bvsle", SBool, val, BVLit(hi, W)))
+			case isIntegerT(S) && isFloatT(D):
+				v = ctx.Const("v", SBV(wS))
+				mant := 53
+				if basicOf(D).Kind() == types.Float32 {
+					mant = 24
+				}
+				W := 66
+				var val *Term
+				if isUnsignedT(S) {
+					val = mk(fmt.Sprintf("(_ zero_extend %d)", W-wS), SBV(W), v)
+				} else {
+					val = mk(fmt.Sprintf("(_ sign_extend %d)", W-wS), SBV(W), v)
+				}
+				repr = And(mk("bvsle", SBool, BVLit(new(big.Int).Neg(pow2(mant)), W), val), mk("bvsle", SBool, val, BVLit(pow2(mant), W)))
+			case isFloatT(S) && isFloatT(D) && wS < wD:
+				v = ctx.Const("v", fpSort(S))
+				repr = Not(mk("fp.isNaN", SBool, v))
+			default:
+				continue
+			}
+			there := u.preciseConv(v, S, D)
+			back := u.preciseConv(there, D, S)
+			out = append(out, &Obligation{Name: fmt.Sprintf("lemma/conversion/roundtrip[%s,%s]", typeName(S), typeName(D)), Kind: "lemma", Props: []string{"C01"},
+				Ctx: ctx, Fn: "lemma/conversion", InstName: typeName(S) + "," + typeName(D), Assume: []*Term{repr}, Goal: Eq(back, v), Logic: "QF_FPBV"})
+		}
+	}
+	return out
+}
